@@ -756,7 +756,7 @@ func runC11(c *Ctx) error {
 	fam := c.Rep.Family("orders", "for each generated configuration: all 120 orders of the five packagings (exhaustive), each order run on ONE freshly parsed configuration with the CLI's packaging step for a directory target (Config.Get, WithDefaults, ConventionalFileName, Package on the same Info); every package compared byte for byte with the package built from its own freshly parsed configuration; non-trivial = every order (five packagings)")
 	fam.Exhaustive = true
 	r := c.R.Fork("c11-orders")
-	nCfg := c.N(5, 60)
+	nCfg := c.N(6, 60)
 	for k := 0; k < nCfg; k++ {
 		y := genIsoConfigYAML(r, tree, scripts)
 		if k == 0 {
@@ -768,6 +768,10 @@ func runC11(c *Ctx) error {
 		}
 		if k == 2 {
 			y = isoPlainConfigYAML(tree, scripts)
+		}
+		if k == 3 {
+			// … and for a platform other than linux (deb, rpm and ipk build; apk and archlinux refuse, every time alike)
+			y = strings.Replace(isoPlainConfigYAML(tree, scripts), "arch: arm7\n", "arch: amd64\nplatform: freebsd\n", 1)
 		}
 		base, err := isoBaselines(y)
 		if err != nil {
